@@ -5,8 +5,9 @@ databases rich in ties, in worker interpreters whose NumPy CPU-feature dispatch 
 thread count, OpenMP hand-out (S2), chunk size and report_closest drawn per execution.  The oracle is
 evaluated on every result item of every simulated execution.  DESIGN 4.4.
 
-Run indices 3g, 3g+1, 3g+2 share one choice sequence (RUN_GROUP) and differ only in the interpreter's
-dispatch setting, so the same (database, query, configuration) is executed under all three.
+Run indices 5g .. 5g+4 share one choice sequence (RUN_GROUP) and differ only in the interpreter's ambient
+setting (three NumPy dispatch settings, NPY_PROMOTION_STATE=weak, PYTHONOPTIMIZE=1), so the same (database, query,
+configuration) is executed under all five.
 """
 import csv
 import io
@@ -24,8 +25,8 @@ from ..worlds import sigs as WS
 
 PROP = 'C09'
 LEVEL = 'exploration'
-RUNS = {'quick': 960, 'thorough': 14400}
-RUN_GROUP = 3
+RUNS = {'quick': 1000, 'thorough': 15000}
+RUN_GROUP = 5
 EVAL_COUNTER = 'items_checked'   # a case is one result item (one closest-genomes list)
 
 AVX512 = 'AVX512F AVX512CD AVX512_SKX AVX512_CLX AVX512_CNL AVX512_ICL'
@@ -49,7 +50,11 @@ ASSUMPTIONS = [
 
 def envs(tier):
 	base = {'OMP_WAIT_POLICY': 'PASSIVE', 'GOMP_SPINCOUNT': '0', 'OMP_DYNAMIC': 'FALSE'}
-	return [dict(preload=['gompsim.so'], env=dict(base, NPY_DISABLE_CPU_FEATURES=d)) for d in DISPATCH]
+	out = [dict(preload=['gompsim.so'], env=dict(base, NPY_DISABLE_CPU_FEATURES=d)) for d in DISPATCH]
+	# two more ambient settings a result must not depend on: NumPy's scalar promotion mode and `python -O`
+	out.append(dict(preload=['gompsim.so'], env=dict(base, NPY_DISABLE_CPU_FEATURES='', NPY_PROMOTION_STATE='weak')))
+	out.append(dict(preload=['gompsim.so'], env=dict(base, NPY_DISABLE_CPU_FEATURES='', PYTHONOPTIMIZE='1')))
+	return out
 
 
 def _walk(world, tid, d, f32):
@@ -65,7 +70,7 @@ def _walk(world, tid, d, f32):
 	return None
 
 
-def check_item(ctx, world, order_idx, dists, item_genome_keys, item_dists, item_taxa, closest_key, N, where):
+def check_item(ctx, world, order_idx, dists, item_genome_keys, item_dists, item_taxa, closest_key, N, where, closest_taxon='n/a'):
 	"""order_idx: world genome indices in database order; dists: float32 distance row (database order)."""
 	n = len(order_idx)
 	exp_len = min(N, n)
@@ -104,6 +109,8 @@ def check_item(ctx, world, order_idx, dists, item_genome_keys, item_dists, item_
 	if exp_len and closest_key is not None and item_genome_keys[0] != closest_key:
 		ctx.violation('C09.first-not-closest', f'{where}: first entry is {item_genome_keys[0]!r} but the closest match is {closest_key!r}',
 		              detail=f'distances of the prefix {gd}')
+	if exp_len and closest_taxon != 'n/a' and closest_key is not None and item_genome_keys[0] == closest_key and item_taxa[0] != closest_taxon:
+		ctx.violation('C09.first-not-closest', f'{where}: first entry and the reported closest match are the same genome at the same distance but carry different taxa ({item_taxa[0]} vs {closest_taxon})')
 	return tie, tuple(_tie_pattern(gd))
 
 
@@ -123,7 +130,7 @@ def scenario(ctx):
 	from gambit.metric import jaccarddist
 	from gambit.query import QueryParams, query
 	import gc
-	dispatch = ctx.run % 3
+	dispatch = ctx.run % RUN_GROUP
 	kspec = KmerSpec(ch.pick([6, 5, 7, 9, 11], 'k'), ch.pick(['AT', 'GC', 'ATG', 'ATGAC'], 'prefix'))
 	n_ref = ch.pick([5, 3, 8, 12, 20, 33, 60, 120, 200], 'n_ref')
 	rng = random.Random(ch.subseed('world'))
@@ -135,7 +142,9 @@ def scenario(ctx):
 	queries = []
 	for i in range(nq):
 		r = rng.random()
-		if r < 0.4:
+		if r < 0.25 and world.decimal_query is not None:
+			queries.append(world.decimal_query.astype(kspec.index_dtype))
+		elif r < 0.4:
 			queries.append(world.genomes[rng.randrange(n_ref)]['sig'].copy())
 		elif r < 0.5:
 			queries.append(np.empty(0, kspec.index_dtype))
@@ -147,7 +156,35 @@ def scenario(ctx):
 	        sigs=blob_hash(np.concatenate([g['sig'].astype('u8') for g in world.genomes])), order=blob_hash(repr(world.sig_order)))
 	# expected distance rows, pair by pair through the two-signature entry point
 	rows = [np.array([jaccarddist(q, world.genomes[g]['sig']) for g in order_idx], dtype=np.float32) for q in queries]
+	if any(float(d) in (np.float32(0.1), np.float32(0.2), np.float32(0.3), np.float32(0.4), np.float32(0.6), np.float32(0.7), np.float32(0.8), np.float32(0.9)) for r in rows for d in r):
+		ctx.probe('distance_equal_to_float32_of_a_decimal_threshold')
 	omp.set_threads(ch.int(1, 16, 'initial_threads'))
+	if ch.flip(0.3, 'params_reused_across_databases'):
+		# one QueryParams object used for a small database first and for the main one afterwards: what it says (N) must still
+		# be what the second query honours
+		N0 = ch.int(4, 9, 'shared_N')
+		small = R.build(ctx, random.Random(ch.subseed('small_world')), kspec, 3, dirname='db_small', fast_sigs=True)
+		s_order = R.db_order(small)
+		shared = QueryParams(report_closest=N0, chunksize=ch.pick([1000, None, 2], 'shared_chunk'))
+		kn = Knobs(ch, 'shared', with_chunk=False)
+		with simulated(ctx, kn):
+			for wld, order in ((small, s_order), (world, order_idx)):
+				dbx = ReferenceDatabase.load_from_dir(wld.dir)
+				resx = query(dbx, queries, shared)
+				for qi, item in enumerate(resx.items):
+					rowx = np.array([jaccarddist(queries[qi], wld.genomes[g]['sig']) for g in order], dtype=np.float32)
+					cm = item.classifier_result.closest_match.matched_taxon
+					check_item(ctx, wld, order, rowx, [m.genome.key for m in item.closest_genomes], [m.distance for m in item.closest_genomes],
+					           [None if m.matched_taxon is None else m.matched_taxon.id for m in item.closest_genomes],
+					           item.classifier_result.closest_match.genome.key, N0,
+					           f'query() with a QueryParams object reused across databases (N={N0}), database of {len(order)} references, query {qi}',
+					           None if cm is None else cm.id)
+					ctx.stats['items_checked'] += 1
+				del dbx, resx
+				gc.collect()
+		ctx.stats['executions'] += 2
+		ctx.probe('params_object_reused_across_databases')
+		ctx.log('shared_params', N=N0)
 	n_exec = ch.int(4, 10, 'n_exec')
 	seen_lists = {}
 	all_lists = []
@@ -192,8 +229,9 @@ def scenario(ctx):
 			ds = [m.distance for m in item.closest_genomes]
 			taxa = [None if m.matched_taxon is None else m.matched_taxon.id for m in item.closest_genomes]
 			ck = item.classifier_result.closest_match.genome.key
+			cm = item.classifier_result.closest_match.matched_taxon
 			where = f'query() n={n_ref} N={N} chunk={knobs.chunksize} team={team} dispatch={dispatch} query {qi}'
-			tie, pattern = check_item(ctx, world, order_idx, rows[qi], keys, ds, taxa, ck, N, where)
+			tie, pattern = check_item(ctx, world, order_idx, rows[qi], keys, ds, taxa, ck, N, where, None if cm is None else cm.id)
 			lists.append(keys[:])
 			ctx.stats['items_checked'] += 1
 			if tie:
